@@ -57,7 +57,12 @@ func (m Mode) Class() string {
 // addresses and from the markers.
 var (
 	modeV4 = []netip.Addr{netip.MustParseAddr("192.0.2.201"), netip.MustParseAddr("192.0.2.202")}
-	modeV6 = []netip.Addr{netip.MustParseAddr("2001:db8:b::1"), netip.MustParseAddr("2001:db8:b::2")}
+	// IPv6 addresses come in every form a profile can carry: native, IPv4-mapped
+	// (what 16 raw bytes of an IPv4 sinkhole decode to), unspecified, loopback.
+	modeV6 = []netip.Addr{
+		netip.MustParseAddr("2001:db8:b::1"), netip.MustParseAddr("::ffff:192.0.2.55"), netip.MustParseAddr("2001:db8:b::2"),
+		netip.IPv6Unspecified(), netip.IPv6Loopback(),
+	}
 )
 
 // DrawMode draws a blocking mode.
@@ -65,7 +70,11 @@ func DrawMode(t *rapid.T, label string) (m Mode) {
 	m.Kind = rapid.SampledFrom([]int{MNull, MCustom, MCustom, MNXDomain, MRefused}).Draw(t, label+"Kind")
 	if m.Kind == MCustom {
 		m.V4 = modeV4[:rapid.IntRange(0, 2).Draw(t, label+"N4")]
-		m.V6 = modeV6[:rapid.IntRange(0, 2).Draw(t, label+"N6")]
+		v6 := rapid.Permutation(modeV6).Draw(t, label+"V6Order")
+		m.V6 = v6[:rapid.IntRange(0, 2).Draw(t, label+"N6")]
+		if rapid.IntRange(0, 3).Draw(t, label+"Mapped") == 0 && !HasMapped(m.V6) {
+			m.V6 = append([]netip.Addr{modeV6[1]}, m.V6...)
+		}
 	}
 
 	return m
@@ -336,4 +345,15 @@ func FoldMsg(m *dns.Msg) string {
 	c.Id = 0
 
 	return strings.ToLower(c.String())
+}
+
+// HasMapped reports whether one of ips is in the IPv4-mapped form.
+func HasMapped(ips []netip.Addr) bool {
+	for _, ip := range ips {
+		if ip.Is4In6() {
+			return true
+		}
+	}
+
+	return false
 }
